@@ -77,7 +77,8 @@ namespace T
       G_BOL = 2048,    // bol needs in.column(), which lazy inputs do not have
       G_ATOM3 = 4096,  // ascii convenience atoms (keyword identifier shebang two three forty_two ranges rep_string rep_one_min_max)
       G_CONTRIB = 8192, // contrib: integer rules, raw_string, predicates, separated_seq, if_then
-      G_REMATCH = 16384 // rematch / minus construct a plain memory_input for the second phase
+      G_REMATCH = 16384, // rematch / minus construct a plain memory_input for the second phase
+      G_MUST = 32768    // must<> alone (also part of G_CONV)
    };
 #ifndef VERIF_GROUPS
 #define VERIF_GROUPS ( T::G_CORE | T::G_HOLE )
@@ -451,7 +452,7 @@ namespace T
    T3( IF_MUST_ELSE, G_CONV, w_if_must_else ) \
    T3( IF_MUST3, G_CONV3, w_if_must3 ) \
    T3( OPT_MUST3, G_CONV3, w_opt_must3 ) \
-   U1( MUST, G_CONV, w_must ) \
+   U1( MUST, ( G_CONV | G_MUST ), w_must ) \
    B2( MUST2, G_CONV, w_must2 ) \
    B2( STAR_MUST, G_CONV, w_star_must ) \
    T3( STAR_MUST3, G_CONV3, w_star_must3 ) \
